@@ -20,7 +20,7 @@ func init() {
 		Level:     "exploration",
 		Technique: "bounded exhaustive input enumeration (markup-hostile atoms and all ordered pairs in every text context; all small shapes with separators anywhere) rendered by the real code and tokenised by an independent strict tag/text tokenizer",
 		Rule: "family hostile-text: each of 21 atoms and every ordered pair in 7 contexts (header cell, body cell, caption, id, class, row-class generator value, all at once); " +
-			"family wrapper-lifecycle: every sequence of <=5 (thorough 6) operations {set generator A, set generator B, set caption, set id+class, add row, add separator, Render} on one long-lived wrapper, each Render validated against the configuration current at that moment; family shapes: header none/0..3 cells, <=4 rows (thorough <=5) each separator or 0..3 cells, with and without row-class generator, template name empty or set, rendered twice on the same wrapper; " +
+			"family wrapper-lifecycle: every sequence of <=5 (thorough 6) operations {set generator A, set generator B, set caption, set id+class, add row, add separator, Render, RenderTo a failing writer, Render with a panicking generator} on one long-lived wrapper, each Render validated against the configuration current at that moment; family shapes: header none/0..3 cells, <=4 rows (thorough <=5) each separator or 0..3 cells, with and without row-class generator, template name empty or set, rendered twice on the same wrapper; " +
 			"non-trivial = text containing a markup-significant character, or a shape with separators/zero-cell rows/no header; distinct by input",
 		Assumptions: []string{"NUL and invalid UTF-8 are outside the alphabet (html/template replaces them by design)", "whitespace between structural tags is ignored"},
 		QuickBudget: 120 * time.Second, ThoroughBudget: 15 * time.Minute,
@@ -321,12 +321,40 @@ func c06Lifecycle(x *X, c *Chooser, depth int) {
 	renders := 0
 	var ops []string
 	for step := 0; step < depth; step++ {
-		k := c.Choose(8)
+		k := c.Choose(11)
 		if k == 0 {
 			break
 		}
 		x.Transition(1)
 		switch k {
+		case 8, 9:
+			// a render that fails part-way (the writer refuses, or takes half of a write and then refuses): not judged
+			// itself (C15), but it must leave nothing behind on the wrapper
+			fw := &faultWriter{mode: map[int]int{8: 1, 9: 3}[k], k: 1}
+			c.Logf("ht.RenderTo(writer: %s)", map[int]string{8: "fails at its first Write", 9: "accepts half of its first Write, then an error"}[k])
+			if p, val, site := Safe(func() { t.RenderTo(fw) }); p {
+				x.FailSite("C06.no_panic", []string{"lifecycle", "panic", "failing_writer"}, site, "html RenderTo with a failing writer panicked: %v after %v", val, ops)
+				return
+			}
+			ops = append(ops, "failed-render")
+		case 10:
+			// a render during which the user's generator panics on its second call; afterwards the previous generator is restored
+			c.Logf("ht.SetRowClassGenerator(panics on 2nd call); ht.Render() under recover; previous generator restored")
+			n := 0
+			t.SetRowClassGenerator(func(int, interface{}) template.HTMLAttr {
+				n++
+				if n == 2 {
+					panic("user generator failed")
+				}
+				return "x"
+			}, nil)
+			Safe(func() { t.Render() })
+			if in.gen {
+				t.SetRowClassGenerator(genFor(in.genTag), nil)
+			} else {
+				t.SetRowClassGenerator(nil, nil)
+			}
+			ops = append(ops, "render-with-panicking-generator")
 		case 1, 2:
 			tag := []string{"A", "B"}[k-1]
 			c.Logf("ht.SetRowClassGenerator(gen%s)", tag)
@@ -367,6 +395,11 @@ func c06Lifecycle(x *X, c *Chooser, depth int) {
 			if renders > 1 {
 				tags = append(tags, "second_render_same_wrapper", "configuration_changed_between_renders")
 			}
+			for _, o := range ops {
+				if o == "failed-render" || o == "render-with-panicking-generator" {
+					tags = appendUnique(tags, "after_"+o)
+				}
+			}
 			x.Clause("C06.succeeds")
 			if err != nil {
 				x.Fail("C06.succeeds", tags, "html Render failed: %v after %v", err, ops)
@@ -385,7 +418,7 @@ func c06Lifecycle(x *X, c *Chooser, depth int) {
 }
 
 func runC06(x *X) {
-	x.Explore("wrapper-lifecycle", ExploreOpts{ShardDepth: 2, Bound: fmt.Sprintf("all sequences of <=%d operations {set generator A, set generator B, set caption, set id+class, add row, add separator, Render} on one long-lived wrapper", x.Pick(5, 6))}, func(c *Chooser) {
+	x.Explore("wrapper-lifecycle", ExploreOpts{ShardDepth: 2, Bound: fmt.Sprintf("all sequences of <=%d operations {set generator A, set generator B, set caption, set id+class, add row, add separator, Render, RenderTo a writer failing at / half-way through its first Write, Render with a generator that panics} on one long-lived wrapper", x.Pick(5, 6))}, func(c *Chooser) {
 		c06Lifecycle(x, c, x.Pick(5, 6))
 	})
 	var texts []string
